@@ -127,7 +127,7 @@ class RealContentsOf(ContentsOf):
 
 class RealRemoveFile(RemoveFile):
     def remove_file(self, path):
-        if os.path.lexists(path):
+        if may_exist(path):
             try:
                 os.remove(path)
             except:
